@@ -56,10 +56,10 @@ def split_global_time(
     """
     log = _log.bind(n_records=data.interaction_count)
     if isinstance(time, (str, int, float, dt.datetime)):
-        times = [_make_time(time)]
+        times = [time]
         rv = "single"
     else:
-        times = [_make_time(t) for t in time]
+        times = list(time)
         rv = "sequence"
         log = log.bind(n_splits=len(times))
 
@@ -71,9 +71,11 @@ def split_global_time(
     ts_col = matrix["timestamp"]
     # ts_col = np.asarray(ts_col)
 
-    if ts_col.dtype.kind in ("i", "u", "f"):
-        log.debug("converting query timestamps")
-        times = [t.timestamp() for t in times]
+    # express every cut-off (and the end) in the representation of the timestamp column
+    numeric = ts_col.dtype.kind in ("i", "u", "f")
+    times = [_make_time(t, numeric) for t in times]
+    if end is not None:
+        end = _make_time(end, numeric)
 
     results = []
     for i, t in enumerate(times):
@@ -123,10 +125,18 @@ def split_temporal_fraction(data: Dataset, test_fraction: float) -> TTSplit:
     return split_global_time(data, point)
 
 
-def _make_time(t: int | float | str | dt.datetime) -> dt.datetime:
-    if isinstance(t, (int, float)):
-        return dt.datetime.fromtimestamp(t)
-    elif isinstance(t, str):
-        return dt.datetime.fromisoformat(t)
+def _make_time(t: int | float | str | dt.datetime, numeric: bool) -> int | float | dt.datetime:
+    """
+    Convert a cut-off to the representation of the timestamp column: UNIX
+    seconds for numeric columns, naive (UTC) date-times otherwise.
+    """
+    if isinstance(t, str):
+        t = dt.datetime.fromisoformat(t)
+
+    if numeric:
+        return t.timestamp() if isinstance(t, dt.datetime) else t
+    elif isinstance(t, (int, float)):
+        # UNIX seconds never pass through the local time zone
+        return dt.datetime.fromtimestamp(t, dt.timezone.utc).replace(tzinfo=None)
     else:
         return t
